@@ -10,6 +10,8 @@ P = {'id': 'C06',
               'get_fast_is_get',
               'smallmap_u8_refines_map',
               'get_fast_unmasked_refuted',
+              'hashstr_refines_map',
+              'hashstr_counters',
               'remove_loop_is_get_loop',
               'sentinel_unmapped_refuted',
               'tombstone_first_slot_refuted',
